@@ -11,6 +11,7 @@ import (
 	"context"
 	"encoding/json"
 	"fmt"
+	"os"
 	"sort"
 	"strconv"
 	"strings"
@@ -51,14 +52,19 @@ type world struct {
 	docIDs  []string
 	ages    map[string]int64
 	gsub    <-chan client.GQLResult
-	caseID  int
-	barrier int
-	txn     client.Txn
-	txnCtx  context.Context
-	branch  bool
-	txnMatches int
-	savedAges  map[string]int64
-	savedDocs  []string
+	// results of the GraphQL subscription received / expected so far in this case
+	gqlGot, gqlWant int
+	// documents deleted so far; documents of the events raised inside the open explicit transaction
+	deleted      map[string]bool
+	savedDeleted map[string]bool
+	txnMatches   int
+	caseID       int
+	barrier      int
+	txn          client.Txn
+	txnCtx       context.Context
+	branch       bool
+	savedAges    map[string]int64
+	savedDocs    []string
 }
 
 func (w *world) label(c cid.Cid) string {
@@ -170,13 +176,15 @@ func (w *world) step(what string, expectGQL int) {
 	w.out.Emit(fmt.Sprintf("step %s %s", csv(ids), csv(commits)), strings.Join(parts, " "))
 	w.out.Count("step:" + strings.Fields(what)[0])
 	w.out.Nontrivial(fmt.Sprintf("%d:%d:%s", w.caseID, w.out.Lines, what))
-	// GraphQL subscription with a filter: one result per committed matching change
+	// GraphQL subscription with a filter: one result per committed matching change. Delivery is asynchronous, so the
+	// comparison is cumulative over the case: a result that arrives after its step's wait is not counted twice as
+	// "missing here, extra there".
 	if w.gsub != nil && expectGQL >= 0 {
-		n := 0
+		w.gqlWant += expectGQL
 		for waiting := true; waiting; {
 			wait := 40 * time.Millisecond
-			if n < expectGQL {
-				wait = 3 * time.Second
+			if w.gqlGot < w.gqlWant {
+				wait = 15 * time.Second
 			}
 			select {
 			case res, ok := <-w.gsub:
@@ -188,14 +196,19 @@ func (w *world) step(what string, expectGQL int) {
 				var m map[string][]map[string]any
 				_ = json.Unmarshal(jb, &m)
 				if len(m["User"]) > 0 {
-					n++
+					w.gqlGot++
 				}
 			case <-time.After(wait):
 				waiting = false
 			}
 		}
-		if n != expectGQL {
-			w.out.Oracle(w.out.Lines-1, fmt.Sprintf("[gql-subscription-count] case %d step %q: the filtered subscription yielded %d results, %d committed changes match its filter", w.caseID, what, n, expectGQL))
+		if os.Getenv("VERIF_DEBUG_OPS") != "" {
+			fmt.Fprintf(os.Stderr, "  case %d step %q expect+%d -> want %d got %d\n", w.caseID, what, expectGQL, w.gqlWant, w.gqlGot)
+		}
+		if w.gqlGot != w.gqlWant {
+			w.out.Oracle(w.out.Lines-1, fmt.Sprintf("[gql-subscription-count] case %d up to step %q: the filtered subscription yielded %d results, %d committed changes match its filter", w.caseID, what, w.gqlGot, w.gqlWant))
+			// report a difference once
+			w.gqlWant = w.gqlGot
 		}
 	}
 }
@@ -219,7 +232,9 @@ const gqlFilterAge = 50
 func (w *world) exec(op string) {
 	t := strings.Fields(op)
 	ctx := w.cctx()
-	matches := 0 // committed changes matching the GraphQL subscription filter (age > 50), outside explicit txns
+	// documents of the update events this operation raises; the subscription answers each event with the document as
+	// it is at the event's commit (a read at that commit)
+	var evDocs []string
 	switch t[0] {
 	case "create":
 		k, _ := strconv.Atoi(t[1])
@@ -246,9 +261,7 @@ func (w *world) exec(op string) {
 				v, _ := d.GetValue("age")
 				a := v.Value().(int64)
 				w.ages[d.ID().String()] = a
-				if a > gqlFilterAge {
-					matches++
-				}
+				evDocs = append(evDocs, d.ID().String())
 			}
 		}
 	case "update", "update-noop", "update-same":
@@ -273,8 +286,8 @@ func (w *world) exec(op string) {
 			default:
 				err = w.col.Update(ctx, d)
 			}
-			if err == nil && w.ages[id] > gqlFilterAge {
-				matches++
+			if err == nil {
+				evDocs = append(evDocs, id)
 			}
 		}
 	case "delete":
@@ -284,7 +297,9 @@ func (w *world) exec(op string) {
 		i, _ := strconv.Atoi(t[1])
 		id := w.docIDs[i%len(w.docIDs)]
 		did, _ := client.NewDocIDFromString(id)
-		_, _ = w.col.Delete(ctx, did)
+		if ok, err := w.col.Delete(ctx, did); err == nil && ok {
+			w.deleted[id] = true
+		}
 	case "dup-create":
 		if len(w.docIDs) == 0 {
 			return
@@ -295,19 +310,19 @@ func (w *world) exec(op string) {
 		_ = w.col.Create(ctx, d)
 	case "gql-create":
 		age := 40 + len(w.docIDs)%30
-		res := w.n.DB.ExecRequest(ctx, fmt.Sprintf(`mutation { create_User(input: [{name: "g%d", age: %d}, {name: "h%d", age: %d}]) { _docID } }`, len(w.docIDs), age, len(w.docIDs), age+20))
+		res := w.n.DB.ExecRequest(ctx, fmt.Sprintf(`mutation { create_User(input: [{name: "g%d", age: %d}, {name: "h%d", age: %d}]) { _docID age } }`, len(w.docIDs), age, len(w.docIDs), age+20))
 		if len(res.GQL.Errors) == 0 {
 			jb, _ := json.Marshal(res.GQL.Data)
 			var m map[string][]map[string]any
 			_ = json.Unmarshal(jb, &m)
-			for j, r := range m["create_User"] {
+			for _, r := range m["create_User"] {
 				id := fmt.Sprint(r["_docID"])
 				w.docIDs = append(w.docIDs, id)
-				a := int64(age + 20*j)
+				// the answer lists the documents in key order, not in input order
+				af, _ := r["age"].(float64)
+				a := int64(af)
 				w.ages[id] = a
-				if a > gqlFilterAge {
-					matches++
-				}
+				evDocs = append(evDocs, id)
 			}
 		}
 	case "txn-begin":
@@ -323,6 +338,10 @@ func (w *world) exec(op string) {
 		for k, v := range w.ages {
 			w.savedAges[k] = v
 		}
+		w.savedDeleted = map[string]bool{}
+		for k, v := range w.deleted {
+			w.savedDeleted[k] = v
+		}
 		w.savedDocs = append([]string{}, w.docIDs...)
 		return
 	case "txn-commit", "txn-discard":
@@ -335,11 +354,11 @@ func (w *world) exec(op string) {
 			if err := w.txn.Commit(w.ctx); err == nil {
 				expect = w.txnMatches
 			} else {
-				w.ages, w.docIDs = w.savedAges, w.savedDocs
+				w.ages, w.docIDs, w.deleted = w.savedAges, w.savedDocs, w.savedDeleted
 			}
 		} else {
 			w.txn.Discard(w.ctx)
-			w.ages, w.docIDs = w.savedAges, w.savedDocs
+			w.ages, w.docIDs, w.deleted = w.savedAges, w.savedDocs, w.savedDeleted
 		}
 		w.txn = nil
 		w.step(op, expect)
@@ -371,10 +390,21 @@ func (w *world) exec(op string) {
 		if len(commitsBefore) > 0 {
 			w.out.Oracle(w.out.Lines, fmt.Sprintf("[visible-before-commit] case %d: blocks %v are in the committed store while the explicit transaction is still open", w.caseID, commitsBefore))
 		}
-		w.txnMatches += matches
+		w.txnMatches += w.matching(evDocs)
 		return
 	}
-	w.step(op, matches)
+	w.step(op, w.matching(evDocs))
+}
+
+// matching counts the events whose document, as it is now, passes the subscription's filter
+func (w *world) matching(docs []string) int {
+	n := 0
+	for _, id := range docs {
+		if !w.deleted[id] && w.ages[id] > gqlFilterAge {
+			n++
+		}
+	}
+	return n
 }
 
 // newCommitsPeek looks for new commits without marking them as seen.
@@ -458,7 +488,7 @@ func runCase(ctx context.Context, out *vc.Out, caseID int, branch bool, nsubs in
 	must(err)
 	col, err := nd.DB.GetCollectionByName(ctx, "User")
 	must(err)
-	w := &world{ctx: ctx, out: out, n: nd, col: col, labels: map[string]string{}, known: map[string]bool{}, ages: map[string]int64{}, caseID: caseID, branch: branch}
+	w := &world{ctx: ctx, out: out, n: nd, col: col, labels: map[string]string{}, known: map[string]bool{}, ages: map[string]int64{}, deleted: map[string]bool{}, caseID: caseID, branch: branch}
 	for i := 0; i < nsubs; i++ {
 		w.addSub()
 	}
@@ -474,6 +504,9 @@ func runCase(ctx context.Context, out *vc.Out, caseID int, branch bool, nsubs in
 		b = 1
 	}
 	out.Emit(fmt.Sprintf("case %d %d", caseID, b), "ok")
+	if os.Getenv("VERIF_DEBUG_OPS") != "" {
+		fmt.Fprintf(os.Stderr, "CASE %d %d %d: %s\n", caseID, b, nsubs, strings.Join(ops, " | "))
+	}
 	w.newCommits()
 	func() {
 		defer func() {
